@@ -1,6 +1,10 @@
 #!/usr/bin/env python3
 """C++ -> Gallina translator for small pure integer functions of the interpreter (work package X1).
 
+Targets (TARGETS): `helpers` - five whole functions of helpers.cpp (-> coq/C01/Gen_Helpers.v); `typed_chain` - the dispatch
+chain that ends evaluate_binary_op_typed, cut out of the function (-> coq/C01/Gen_TypedChain.v); `check_type_range` - the
+closure TypeManager::check_type_range hands to evaluate_safe (-> coq/Cxx/Gen_CheckTypeRange.v, for property C04).
+
     cxx_pure.py <repo-root> [target ...]        targets: see TARGETS (default: all)
 
 For every target it runs
@@ -42,6 +46,26 @@ TARGETS = {
                       "ExpressionHelpers::evaluate_logical_binary", "ExpressionHelpers::evaluate_bitwise_binary",
                       "ExpressionHelpers::evaluate_simple_unary"],
         "dest": "coq/C01/Gen_Helpers.v",
+    },
+    # the integer tail of the typed evaluator: the `if (node->op == "+") ... else if ...` chain that ends
+    # evaluate_binary_op_typed, cut out of the function; variables declared before the chain become parameters, pure
+    # boolean observations of the operands (left_value.is_string(), inferred_type.type_info == TYPE_DOUBLE, truthy(..))
+    # become named boolean parameters ("flags"), calls of the local result builders become SReturnCall
+    "typed_chain": {
+        "source": "src/backend/interpreter/evaluator/operators/binary_unary.cpp",
+        "functions": ["BinaryUnaryTypedHelpers::evaluate_binary_op_typed"],
+        "dest": "coq/C01/Gen_TypedChain.v",
+        "tail_chain": {"string": "node->op", "first": "+", "suffix": "_chain"},
+    },
+    # TypeManager::check_type_range (C04): the body of the closure it hands to evaluate_safe - a switch over the type code that
+    # sets min_allowed / max_allowed, then the range test.  Captured variables (type, value, is_unsigned) become parameters;
+    # the unscoped enum TypeInfo has underlying type int (gcc / clang: all enumerators fit int, [dcl.enum]/7)
+    "check_type_range": {
+        "source": "src/backend/interpreter/managers/types/manager.cpp",
+        "functions": ["TypeManager::check_type_range"],
+        "dest": "coq/Cxx/Gen_CheckTypeRange.v",
+        "lambda_body": {"enums": {"TypeInfo": "TInt"}},
+        "prop": "C04",
     },
 }
 
@@ -131,7 +155,7 @@ def clang_functions(repo, source, qnames, use_cache=True):
     data = {}
     for q in qnames:
         short = q.split("::")[-1]
-        defs = [d for d in decls if d.get("kind") == "FunctionDecl" and d.get("name") == short
+        defs = [d for d in decls if d.get("kind") in ("FunctionDecl", "CXXMethodDecl") and d.get("name") == short
                 and any(c.get("kind") == "CompoundStmt" for c in d.get("inner", []))]
         if len(defs) != 1:
             raise Untranslatable({"kind": "FunctionDecl"}, "%d definitions of %s found in %s (filter %s)" % (len(defs), q, source, flt))
@@ -156,10 +180,10 @@ def clang_functions(repo, source, qnames, use_cache=True):
 # the fragment (mirrors coq/Cxx/Cxx.v; used only for the type cross-check and for rendering)
 # ------------------------------------------------------------------------------------------------
 
-TYPES = {"bool": "TBool", "int": "TInt", "unsigned int": "TUInt", "long": "TLong", "unsigned long": "TULong"}
-SIGNED = {"TInt", "TLong"}
-RANK = {"TBool": 0, "TInt": 1, "TUInt": 1, "TLong": 2, "TULong": 2}
-BITS = {"TBool": 1, "TInt": 32, "TUInt": 32, "TLong": 64, "TULong": 64}
+TYPES = {"bool": "TBool", "int": "TInt", "unsigned int": "TUInt", "long": "TLong", "unsigned long": "TULong", "long double": "TLDouble"}
+SIGNED = {"TInt", "TLong", "TLDouble"}
+RANK = {"TBool": 0, "TInt": 1, "TUInt": 1, "TLong": 2, "TULong": 2, "TLDouble": 3}
+BITS = {"TBool": 1, "TInt": 32, "TUInt": 32, "TLong": 64, "TULong": 64, "TLDouble": 64}
 RANGE = {"TBool": (0, 1), "TInt": (-2**31, 2**31 - 1), "TUInt": (0, 2**32 - 1), "TLong": (-2**63, 2**63 - 1), "TULong": (0, 2**64 - 1)}
 BINOPS = {"+": "BAdd", "-": "BSub", "*": "BMul", "/": "BDiv", "%": "BRem", "&": "BAnd", "|": "BOr", "^": "BXor",
           "<<": "BShl", ">>": "BShr", "==": "BEq", "!=": "BNe", "<": "BLt", ">": "BGt", "<=": "BLe", ">=": "BGe"}
@@ -172,6 +196,8 @@ def promote(t):
 
 
 def common(a, b):
+    if "TLDouble" in (a, b):
+        return "TLDouble"
     if a == b:
         return a
     if (a in SIGNED) == (b in SIGNED):
@@ -236,6 +262,21 @@ class Ctx:
         self.scopes = []            # list of dicts: decl id -> (name, type)
         self.dropped = []
         self.nodes = 0
+        self.abstract = False       # chain mode: outer variables and pure boolean observations become parameters
+        self.outer = {}             # decl id -> (name, type) of variables declared before the chain, in order of first use
+        self.flags = []             # source texts of the boolean observations, in order of first use
+        self.sparam_text = None     # chain mode: the source text of the string the chain dispatches on (node->op)
+        self.enums = {}             # enum type name -> the Cxx integer type that represents it
+        self.labels = []            # (enumerator name, value) of the case labels met
+
+    def text_of(self, node):
+        """Source text of a node (whitespace-normalised); None if its range is not plain text of the file."""
+        rng = node.get("range", {})
+        b, e = rng.get("begin", {}), rng.get("end", {})
+        if "offset" not in b or "offset" not in e:
+            return None
+        t = self.src[b["offset"]:e["offset"] + e.get("tokLen", 1)].decode("utf-8", "replace")
+        return re.sub(r"\s+", " ", t).strip()
 
     def line_of(self, node):
         rng = node.get("range", {}).get("begin", {})
@@ -251,6 +292,10 @@ class Ctx:
         for sc in reversed(self.scopes):
             if rid in sc:
                 return sc[rid]
+        if self.abstract and ref.get("kind") in ("VarDecl", "ParmVarDecl") and ref.get("name"):
+            if rid not in self.outer:
+                self.outer[rid] = (ref.get("name"), ity(node, self, "type of the outer variable %s" % ref.get("name")))
+            return self.outer[rid]
         raise Untranslatable(node, "reference to %s %r which is not an integer parameter or local of the function" % (
             ref.get("kind"), ref.get("name")), self)
 
@@ -260,6 +305,8 @@ def ity(node, ctx, what="type"):
     q = t.get("desugaredQualType", t.get("qualType", ""))
     q = re.sub(r"\bconst\b", "", q).strip()
     q = re.sub(r"\s+", " ", q)
+    if ctx is not None and q in ctx.enums:
+        return ctx.enums[q]
     if q not in TYPES:
         raise Untranslatable(node, "%s %r is not one of bool / int / unsigned int / long / unsigned long" % (what, t.get("qualType")), ctx)
     return TYPES[q]
@@ -287,6 +334,8 @@ def strip_to_string_literal(n, ctx):
 def is_sparam_ref(n, ctx):
     while n.get("kind") in ("ImplicitCastExpr", "ParenExpr") and n.get("castKind", "NoOp") == "NoOp" and len(kids(n)) == 1:
         n = kids(n)[0]
+    if ctx.sparam_text is not None:
+        return n.get("kind") == "MemberExpr" and is_std_string(n.get("type", {})) and ctx.text_of(n) == ctx.sparam_text
     return (n.get("kind") == "DeclRefExpr" and ctx.sparam is not None
             and n.get("referencedDecl", {}).get("id") == ctx.sparam[1])
 
@@ -303,8 +352,62 @@ def callee_name(call):
     return None
 
 
-# expressions: returns (gallina term, Cxx type)
+PURE_KINDS = ("DeclRefExpr", "MemberExpr", "ImplicitCastExpr", "ParenExpr", "CXXMemberCallExpr", "CXXOperatorCallExpr",
+              "MaterializeTemporaryExpr", "CXXBindTemporaryExpr", "ExprWithCleanups", "BinaryOperator", "UnaryOperator")
+PURE_OPERATORS = ("operator==", "operator!=", "operator<", "operator>", "operator<=", "operator>=", "operator()")
+PURE_METHOD = re.compile(r"^(is_|as_|has_)\w+$")
+
+
+def pure_observation(n, ctx, root):
+    """Is the subtree a side-effect-free observation of variables (member reads, const predicates, comparisons,
+    calls of local closures on variables)?  Raises Untranslatable (naming the offending node) otherwise."""
+    k = n.get("kind")
+    if k not in PURE_KINDS:
+        raise Untranslatable(n, "inside the boolean expression `%s`, which is not in the fragment and not a pure observation either" % ctx.text_of(root), ctx)
+    if k in ("BinaryOperator", "UnaryOperator") and n.get("opcode") not in ("==", "!=", "<", ">", "<=", ">=", "!", "&&", "||"):
+        raise Untranslatable(n, "operator %s inside the observation `%s`" % (n.get("opcode"), ctx.text_of(root)), ctx)
+    if k == "CXXOperatorCallExpr" and callee_name(n) not in PURE_OPERATORS:
+        raise Untranslatable(n, "call of %s inside the observation `%s`" % (callee_name(n), ctx.text_of(root)), ctx)
+    if k == "CXXMemberCallExpr":
+        m = kids(n)[0] if kids(n) else {}
+        if m.get("kind") != "MemberExpr" or not PURE_METHOD.match(m.get("name") or "") or len(kids(n)) != 1:
+            raise Untranslatable(n, "member call %r inside the observation `%s` (only argument-less is_* / as_* / has_* predicates)" % (
+                m.get("name"), ctx.text_of(root)), ctx)
+    if k == "DeclRefExpr" and n.get("referencedDecl", {}).get("kind") not in ("VarDecl", "ParmVarDecl", "EnumConstantDecl", "CXXMethodDecl", "FunctionDecl"):
+        raise Untranslatable(n, "reference to a %s inside the observation `%s`" % (n.get("referencedDecl", {}).get("kind"), ctx.text_of(root)), ctx)
+    if k == "DeclRefExpr" and n.get("referencedDecl", {}).get("kind") == "FunctionDecl" and n.get("referencedDecl", {}).get("name") not in PURE_OPERATORS:
+        raise Untranslatable(n, "call of function %s inside the observation `%s`" % (n.get("referencedDecl", {}).get("name"), ctx.text_of(root)), ctx)
+    for c in kids(n):
+        pure_observation(c, ctx, root)
+
+
 def expr(n, ctx):
+    """Chain mode: a boolean expression the fragment has no construct for, but which only observes variables, becomes a
+    named boolean parameter (its source text)."""
+    if not ctx.abstract:
+        return expr1(n, ctx)
+    t = n.get("type", {})
+    if t.get("desugaredQualType", t.get("qualType")) != "bool" or n.get("kind") in ("ParenExpr",):
+        return expr1(n, ctx)
+    mark = (ctx.nodes, dict(ctx.outer), list(ctx.flags))
+    try:
+        return expr1(n, ctx)
+    except Untranslatable as first:
+        ctx.nodes, ctx.outer, ctx.flags = mark[0], mark[1], mark[2]
+        txt = ctx.text_of(n)
+        if txt is None:
+            raise first
+        try:
+            pure_observation(n, ctx, n)
+        except Untranslatable:
+            raise first
+        if txt not in ctx.flags:
+            ctx.flags.append(txt)
+        return "(EVar %s)" % coq_string(txt), "TBool"
+
+
+# expressions: returns (gallina term, Cxx type)
+def expr1(n, ctx):
     ctx.nodes += 1
     k = n.get("kind")
     ch = kids(n)
@@ -332,9 +435,15 @@ def expr(n, ctx):
             if to == "TBool":
                 raise Untranslatable(n, "IntegralCast to bool", ctx)
             return "(ECast %s %s)" % (to, g), to
-        if ck == "IntegralToBoolean":
+        if ck in ("IntegralToBoolean", "FloatingToBoolean"):
             g, t = expr(ch[0], ctx)
             return "(ECast TBool %s)" % g, "TBool"
+        if ck in ("IntegralToFloating", "FloatingToIntegral"):
+            g, t = expr(ch[0], ctx)
+            to = ity(n, ctx, "cast target")
+            if (ck == "IntegralToFloating") != (to == "TLDouble") or (ck == "FloatingToIntegral" and t != "TLDouble"):
+                raise Untranslatable(n, "%s between %s and %s" % (ck, t, to), ctx)
+            return "(ECast %s %s)" % (to, g), to
         raise Untranslatable(n, "cast kind %s" % ck, ctx)
     if k == "DeclRefExpr":
         ref = n.get("referencedDecl", {})
@@ -351,6 +460,16 @@ def expr(n, ctx):
         if not lo <= v <= hi:
             raise Untranslatable(n, "literal %d outside %s" % (v, t), ctx)
         return "(ELit %s %s)" % (t, coq_z(v)), t
+    if k == "FloatingLiteral":
+        t = ity(n, ctx, "literal type")
+        import decimal
+        try:
+            d = decimal.Decimal(n.get("value"))
+        except (decimal.InvalidOperation, TypeError):
+            raise Untranslatable(n, "floating literal %r" % n.get("value"), ctx)
+        if t != "TLDouble" or d != d.to_integral_value() or abs(int(d)) >= 2**64:
+            raise Untranslatable(n, "floating literal %s of type %s is not an exactly representable integer-valued long double" % (n.get("value"), t), ctx)
+        return "(ELit TLDouble %s)" % coq_z(int(d)), "TLDouble"
     if k == "CXXBoolLiteralExpr":
         return "(ELit TBool %d)" % (1 if n.get("value") else 0), "TBool"
     if k == "UnaryOperator":
@@ -387,6 +506,17 @@ def expr(n, ctx):
         rt = ta if ta == tb else common(promote(ta), promote(tb))
         check_type(n, rt, ctx)
         return "(ECond %s %s %s)" % (gc, ga, gb), rt
+    if k == "CallExpr":
+        # std::numeric_limits<T>::max() / min() of an integer type T: the largest / smallest value of T [numeric.limits.members]
+        txt = ctx.text_of(n) or ""
+        m = re.match(r"^std::numeric_limits<\s*([\w:]+)\s*>::(max|min)\(\)$", txt)
+        if m and len(ch) == 1 and callee_name(n) == m.group(2):
+            t = ity(n, ctx, "result type of " + txt)
+            if t in ("TLDouble", "TBool"):
+                raise Untranslatable(n, txt + " of a non-integer type", ctx)
+            lo, hi = RANGE[t]
+            return "(ELit %s %s)" % (t, coq_z(hi if m.group(2) == "max" else lo)), t
+        raise Untranslatable(n, "call of %s (only std::numeric_limits<T>::max() / min() are understood)" % callee_name(n), ctx)
     if k == "CXXOperatorCallExpr":
         # op == "lit"   /   "lit" == op      on the std::string parameter
         if callee_name(n) == "operator==" and len(ch) == 3:
@@ -460,6 +590,112 @@ def throw_stmt(n, ctx):
     return "(SThrow %s)" % message(kids(e)[0], ctx, n)
 
 
+def contains_break(n):
+    if n.get("kind") == "BreakStmt":
+        return True
+    if n.get("kind") in ("SwitchStmt", "ForStmt", "WhileStmt", "DoStmt", "CXXForRangeStmt", "LambdaExpr"):
+        return False
+    return any(contains_break(c) for c in kids(n))
+
+
+def switch_stmt(n, ctx):
+    """switch (e) { case A: ...; break; case B: case C: ...; break; default: ...; break; } with every group ending in break
+    (or return / throw) and no other break: an if / else-if chain on e == A, e == B || e == C, ..., else the default group."""
+    ch = kids(n)
+    if len(ch) != 2 or ch[1].get("kind") != "CompoundStmt" or n.get("hasInit") or n.get("hasVar"):
+        raise Untranslatable(n, "switch of an unexpected shape", ctx)
+    g, t = expr(ch[0], ctx)
+    if t not in ("TInt", "TUInt", "TLong", "TULong"):
+        raise Untranslatable(ch[0], "switch on a value of type %s" % t, ctx)
+    groups = []          # [labels, is_default, [statements]]
+    for c in kids(ch[1]):
+        if c.get("kind") in ("CaseStmt", "DefaultStmt"):
+            labels, is_default, cur = [], False, c
+            while cur.get("kind") in ("CaseStmt", "DefaultStmt"):
+                kk = kids(cur)
+                if cur.get("kind") == "CaseStmt":
+                    if len(kk) != 2 or kk[0].get("kind") != "ConstantExpr" or "value" not in kk[0]:
+                        raise Untranslatable(cur, "case label that is not a single constant", ctx)
+                    v = int(kk[0]["value"])
+                    lo, hi = RANGE[t]
+                    if not lo <= v <= hi:
+                        raise Untranslatable(cur, "case label %d outside %s" % (v, t), ctx)
+                    labels.append(v)
+                    nm = [x for x in [kk[0]] + kids(kk[0]) + sum((kids(y) for y in kids(kk[0])), []) if x.get("kind") == "DeclRefExpr"]
+                    if nm and nm[0].get("referencedDecl", {}).get("kind") == "EnumConstantDecl":
+                        ctx.labels.append((nm[0]["referencedDecl"].get("name"), v))
+                else:
+                    if len(kk) != 1:
+                        raise Untranslatable(cur, "default label of an unexpected shape", ctx)
+                    is_default = True
+                cur = kk[-1]
+            if groups and groups[-1][2] and groups[-1][2][-1].get("kind") not in ("BreakStmt", "ReturnStmt") and not is_throw(groups[-1][2][-1]):
+                raise Untranslatable(c, "the previous case falls through into this label", ctx)
+            groups.append([labels, is_default, [cur]])
+        else:
+            if not groups:
+                raise Untranslatable(c, "statement before the first case label", ctx)
+            groups[-1][2].append(c)
+    if sum(1 for grp in groups if grp[1]) > 1 or len(set(sum((grp[0] for grp in groups), []))) != sum(len(grp[0]) for grp in groups):
+        raise Untranslatable(n, "duplicate labels", ctx)
+    out_groups = []
+    for labels, is_default, stmts in groups:
+        if stmts and stmts[-1].get("kind") == "BreakStmt":
+            stmts = stmts[:-1]
+        elif not (stmts and (stmts[-1].get("kind") == "ReturnStmt" or is_throw(stmts[-1]))):
+            if (labels, is_default, stmts) is not groups[-1] and [labels, is_default, stmts] != groups[-1]:
+                raise Untranslatable(n, "a case group does not end in break / return / throw", ctx)
+        for st in stmts:
+            if contains_break(st):
+                raise Untranslatable(st, "break that is not the last statement of its case group", ctx)
+        ctx.scopes.append({})
+        try:
+            body = seq([stmt(st, ctx) for st in stmts])
+        finally:
+            ctx.scopes.pop()
+        out_groups.append((labels, is_default, body))
+    chain = "SSkip"
+    for labels, is_default, body in out_groups:
+        if is_default:
+            chain = body
+    for labels, is_default, body in reversed(out_groups):
+        if not labels:
+            continue
+        if is_default:
+            continue        # `case X: default:` - X behaves like the default
+        tests = ["(EBin BEq %s (ELit %s %s))" % (g, t, coq_z(v)) for v in labels]
+        test = tests[-1]
+        for x in reversed(tests[:-1]):
+            test = "(ELOr %s %s)" % (x, test)
+        chain = ("SIf", test, body, chain)
+    return chain
+
+
+def is_throw(n):
+    while n.get("kind") == "ExprWithCleanups" and len(kids(n)) == 1:
+        n = kids(n)[0]
+    return n.get("kind") == "CXXThrowExpr"
+
+
+def return_call(n, ctx):
+    """return builder(args...);  where builder is a local closure (a lambda stored in a variable) making the result object."""
+    e = n
+    while e.get("kind") in ("ExprWithCleanups", "CXXBindTemporaryExpr", "MaterializeTemporaryExpr", "ParenExpr") and len(kids(e)) == 1:
+        e = kids(e)[0]
+    if e.get("kind") == "CXXConstructExpr" and len(kids(e)) == 1 and e.get("elidable"):
+        return return_call(kids(e)[0], ctx)
+    if e.get("kind") != "CXXOperatorCallExpr" or callee_name(e) != "operator()" or len(kids(e)) < 2:
+        raise Untranslatable(e, "returned object that is not the result of calling a local result builder", ctx)
+    obj = kids(e)[1]
+    while obj.get("kind") in ("ImplicitCastExpr", "ParenExpr") and len(kids(obj)) == 1:
+        obj = kids(obj)[0]
+    ref = obj.get("referencedDecl", {})
+    if obj.get("kind") != "DeclRefExpr" or ref.get("kind") != "VarDecl" or "(lambda at " not in obj.get("type", {}).get("qualType", ""):
+        raise Untranslatable(e, "call of something that is not a local closure variable", ctx)
+    args = [expr(a, ctx)[0] for a in kids(e)[2:]]
+    return "(SReturnCall %s [%s])" % (coq_string(ref.get("name")), "; ".join(args))
+
+
 def seq(stmts):
     stmts = [s for s in stmts if s != "SSkip"] or ["SSkip"]
     out = stmts[-1]
@@ -481,9 +717,27 @@ def stmt(n, ctx):
             ctx.scopes.pop()
     if k == "NullStmt":
         return "SSkip"
+    if k == "ReturnStmt" and len(ch) == 0:
+        return "SReturnVoid"
+    if k == "BinaryOperator" and n.get("opcode") == "=" and len(ch) == 2:
+        lhs = ch[0]
+        while lhs.get("kind") == "ParenExpr" and len(kids(lhs)) == 1:
+            lhs = kids(lhs)[0]
+        ref = lhs.get("referencedDecl", {})
+        if lhs.get("kind") != "DeclRefExpr" or ref.get("kind") not in ("VarDecl", "ParmVarDecl"):
+            raise Untranslatable(n, "assignment to something that is not a plain variable", ctx)
+        name, t = ctx.find_var(ref, lhs)
+        if ref.get("id") in ctx.outer:
+            raise Untranslatable(n, "assignment to the captured / outer variable %s" % name, ctx)
+        g, te = expr(ch[1], ctx)
+        return "(SAssign %s %s)" % (coq_string(name), g)
+    if k == "SwitchStmt":
+        return switch_stmt(n, ctx)
     if k == "ReturnStmt":
         if len(ch) != 1:
             raise Untranslatable(n, "return without a value", ctx)
+        if ctx.abstract:
+            return return_call(ch[0], ctx)
         g, t = expr(ch[0], ctx)
         return "(SReturn %s)" % g
     if k == "IfStmt":
@@ -550,6 +804,112 @@ def render_stmt(s, ind):
     if s[0] == "SIf":
         return "%s(SIf %s\n%s\n%s)" % (pad, s[1], render_stmt(s[2], ind + 2), render_stmt(s[3], ind + 1))
     raise AssertionError(s)
+
+
+def is_dispatch_test(n, ctx, lit=None):
+    """`<string> == "lit"` on the chain's dispatch string."""
+    if n.get("kind") != "CXXOperatorCallExpr" or callee_name(n) != "operator==" or len(kids(n)) != 3:
+        return False
+    a, b = kids(n)[1], kids(n)[2]
+    got = strip_to_string_literal(b, ctx)
+    return got is not None and is_sparam_ref(a, ctx) and (lit is None or got == lit)
+
+
+def translate_tail_chain(qname, decl, src_bytes, spec):
+    """Cut the final if-chain out of a large function: the LAST top-level statement pair
+           if (<string> == "<first>") ... else if ... ;   throw std::runtime_error(...);
+    of the function body.  Everything the chain reads from the code before it becomes a parameter."""
+    ctx = Ctx(qname, src_bytes)
+    ctx.abstract = True
+    ctx.sparam_text = spec["string"]
+    ctx.sparam = (spec["string"], None)
+    name = decl.get("name")
+    loc = decl.get("loc", {})
+    if "offset" not in loc or src_bytes[loc["offset"]:loc["offset"] + loc.get("tokLen", 0)] != name.encode():
+        raise Untranslatable(decl, "source offsets do not point at the function's name in the given file", ctx)
+    body = [c for c in kids(decl) if c.get("kind") == "CompoundStmt"]
+    if len(body) != 1:
+        raise Untranslatable(decl, "no body", ctx)
+    tops = kids(body[0])
+    if len(tops) < 2:
+        raise Untranslatable(body[0], "function body too short to end in a dispatch chain", ctx)
+    chain, last = tops[-2], tops[-1]
+    if not (chain.get("kind") == "IfStmt" and chain.get("hasElse") and kids(chain) and is_dispatch_test(kids(chain)[0], ctx, spec["first"])):
+        raise Untranslatable(chain, "the statement before the final throw is not `if (%s == \"%s\") ... else ...` - the dispatch chain was not found" % (
+            spec["string"], spec["first"]), ctx)
+    lk = last
+    while lk.get("kind") == "ExprWithCleanups" and len(kids(lk)) == 1:
+        lk = kids(lk)[0]
+    if lk.get("kind") != "CXXThrowExpr":
+        raise Untranslatable(last, "the function does not end in a throw after the dispatch chain", ctx)
+    # no earlier top-level statement may be a second copy of the chain head placed after this one: by construction (last pair)
+    b, e = chain.get("range", {}).get("begin", {}), decl.get("range", {}).get("end", {})
+    if "offset" not in b or "offset" not in e:
+        raise Untranslatable(chain, "chain whose source range is not plain", ctx)
+    text = src_bytes[b["offset"]:e["offset"] + e.get("tokLen", 1)]
+    ctx.scopes.append({})
+    tree = seq([stmt(chain, ctx), stmt(last, ctx)])
+    # sorted by name: the order in which the chain happens to read its inputs does not matter
+    params = sorted((nm, t) for nm, t in ctx.outer.values()) + [(f, "TBool") for f in sorted(ctx.flags)]
+    if len(set(p for p, _ in params)) != len(params):
+        raise Untranslatable(decl, "two different things the chain reads have the same name", ctx)
+    gname = name + spec.get("suffix", "_chain")
+    gal = ("Definition fn_%s : fn :=\n"
+           "  {| f_name := %s; f_ret := TLong; f_sparam := %s;\n"
+           "     f_params := [%s];\n"
+           "     f_body :=\n%s |}.") % (
+        gname, coq_string(qname + " (final dispatch chain)"), coq_string(spec["string"]),
+        ";\n                  ".join("(%s, %s)" % (coq_string(p), t) for p, t in params), render_stmt(tree, 7))
+    return {"name": gname, "qname": qname + " (final dispatch chain)", "sha256": _sha(text), "gallina": gal,
+            "lines": (ctx.line_of(chain), None), "nodes": ctx.nodes, "dropped_calls": ctx.dropped, "params": params,
+            "sparam": spec["string"], "outer_variables": [nm for nm, _ in ctx.outer.values()], "flags": list(ctx.flags)}
+
+
+def translate_lambda_body(qname, decl, src_bytes, spec):
+    """A function whose body hands ONE closure to a runner (evaluate_safe(..., [&](...) { body })): translate the closure's
+    body; the variables it captures from the function become parameters."""
+    ctx = Ctx(qname, src_bytes)
+    ctx.abstract = True
+    ctx.enums = dict(spec.get("enums", {}))
+    name = decl.get("name")
+    loc = decl.get("loc", {})
+    if "offset" not in loc or src_bytes[loc["offset"]:loc["offset"] + loc.get("tokLen", 0)] != name.encode():
+        raise Untranslatable(decl, "source offsets do not point at the function's name in the given file", ctx)
+
+    def walk(n):
+        yield n
+        for c in kids(n):
+            yield from walk(c)
+    lambdas = [x for x in walk(decl) if x.get("kind") == "LambdaExpr"]
+    if len(lambdas) != 1:
+        raise Untranslatable(decl, "%d closures in the function (exactly one expected)" % len(lambdas), ctx)
+    body = [c for c in kids(lambdas[0]) if c.get("kind") == "CompoundStmt"]
+    if len(body) != 1:
+        raise Untranslatable(lambdas[0], "closure without a body", ctx)
+    b, e = decl.get("range", {}).get("begin", {}), decl.get("range", {}).get("end", {})
+    if "offset" not in b or "offset" not in e:
+        raise Untranslatable(decl, "definition whose source range is not plain", ctx)
+    text = src_bytes[b["offset"]:e["offset"] + e.get("tokLen", 1)]
+    ctx.scopes.append({})
+    tree = stmt(body[0], ctx)
+    if ctx.flags:
+        raise Untranslatable(decl, "the closure consults %s, which is outside the fragment" % ctx.flags[0], ctx)
+    params = sorted((nm, t) for nm, t in ctx.outer.values())
+    gal = ("Definition fn_%s : fn :=\n"
+           "  {| f_name := %s; f_ret := TLong; f_sparam := \"\";\n"
+           "     f_params := [%s];\n"
+           "     f_body :=\n%s |}.") % (
+        name, coq_string(qname + " (the closure run by evaluate_safe)"),
+        "; ".join("(%s, %s)" % (coq_string(p), t) for p, t in params), render_stmt(tree, 7))
+    labels = []
+    for nm, v in ctx.labels:
+        if (nm, v) not in labels:
+            labels.append((nm, v))
+    gal += "\n\n(* the enumerators used as case labels, with clang's values *)\nDefinition %s_labels : list (string * Z) :=\n  [%s]." % (
+        name, "; ".join("(%s, %s)" % (coq_string(nm), coq_z(v)) for nm, v in labels))
+    return {"name": name, "qname": qname, "sha256": _sha(text), "gallina": gal, "lines": (ctx.line_of(decl), None),
+            "nodes": ctx.nodes, "dropped_calls": ctx.dropped, "params": params, "sparam": None,
+            "outer_variables": [nm for nm, _ in ctx.outer.values()], "labels": labels}
 
 
 def translate_function(qname, decl, src_bytes):
@@ -635,7 +995,12 @@ def regenerate(repo, target_name="helpers", dest=None, use_cache=True):
         info.update(cinfo)
         with open(os.path.join(repo, tgt["source"]), "rb") as fh:
             src = fh.read()
-        fns = [translate_function(q, decls[q], src) for q in tgt["functions"]]
+        if "tail_chain" in tgt:
+            fns = [translate_tail_chain(q, decls[q], src, tgt["tail_chain"]) for q in tgt["functions"]]
+        elif "lambda_body" in tgt:
+            fns = [translate_lambda_body(q, decls[q], src, tgt["lambda_body"]) for q in tgt["functions"]]
+        else:
+            fns = [translate_function(q, decls[q], src) for q in tgt["functions"]]
     except Untranslatable as e:
         info["problem"] = {"function": e.fn, "node": e.kind, "line": e.line, "why": e.why, "text": str(e)}
         info["wall_s"] = round(time.time() - t0, 2)
@@ -643,6 +1008,9 @@ def regenerate(repo, target_name="helpers", dest=None, use_cache=True):
     for f in fns:
         info["functions"][f["qname"]] = {"sha256": f["sha256"], "ast_nodes": f["nodes"], "dropped_calls": f["dropped_calls"],
                                          "line": f["lines"][0]}
+        for extra in ("outer_variables", "flags"):
+            if extra in f:
+                info["functions"][f["qname"]][extra] = f[extra]
     txt = render(tgt, tgt["source"], fns)
     old = open(dest).read() if os.path.exists(dest) else None
     info["wall_s"] = round(time.time() - t0, 2)
